@@ -65,7 +65,28 @@ def arc (v : Array String) : String :=
     "tr", fSegsT l,
     "it", fPts ((ArcIter.new a tol).collect fuelMax) ]
 
+/-- lyon_path adapters (f32): the iterator adapter drives `quadratic_bezier::Flattened` /
+`cubic_bezier::Flattened`; the builder adapter drives `for_each_flattened_with_t` through
+`private::flatten_*` and passes `line.to` on. -/
+def pquad (v : Array String) : String :=
+  let q : Quad α := ⟨rdP v 0, rdP v 2, rdP v 4⟩
+  let tol : α := rd v 6
+  match q.forEachFlattenedWithT tol with
+  | none => "panic"
+  | some l =>
+    unwords [ "pbuild", fPts (FlatSeg.points l), "piter", fPts ((QuadIter.new q tol).collect fuelMax) ]
+
+def pcubic (v : Array String) : String :=
+  let c : Cubic α := ⟨rdP v 0, rdP v 2, rdP v 4, rdP v 6⟩
+  let tol : α := rd v 8
+  match c.forEachFlattenedWithT tol, CubicIter.new c tol with
+  | some l, some it =>
+    unwords [ "pbuild", fPts (FlatSeg.points l), "piter", fPts (it.collect fuelMax) ]
+  | _, _ => "panic"
+
 def families : List Family := [
+  ⟨"pquad", pquad (α := Float32), pquad (α := Float)⟩,
+  ⟨"pcubic", pcubic (α := Float32), pcubic (α := Float)⟩,
   ⟨"quad", quad (α := Float32), quad (α := Float)⟩,
   ⟨"cubic", cubic (α := Float32), cubic (α := Float)⟩,
   ⟨"arc", arc (α := Float32), arc (α := Float)⟩ ]
